@@ -1,1 +1,5 @@
-import Gaftools.Spec.Order
+import Gaftools.Props.C18
+#print axioms Gaftools.C18.skip_isolated
+#print axioms Gaftools.C18.runOrder_total
+#print axioms Gaftools.C18.written_names
+#print axioms Gaftools.C18.runOrder_ranges
